@@ -48,11 +48,15 @@ type c16Val struct {
 	Name string
 	V    any
 	Type schema.ItemType // expected item type ("" = nil-like: no type demanded)
+	// Want, when HasWant, is the canonical form to expect (values that are not plain Go data: a typed
+	// item handed over as *schema.Value must come back as the value it carries)
+	Want    any
+	HasWant bool
 }
 
 func c16Values() []c16Val {
 	var vs []c16Val
-	add := func(name string, v any, t schema.ItemType) { vs = append(vs, c16Val{name, v, t}) }
+	add := func(name string, v any, t schema.ItemType) { vs = append(vs, c16Val{Name: name, V: v, Type: t}) }
 	// every signed and unsigned width at 0, ±1, min, max (unsigned capped at MaxInt64)
 	add("int0", int(0), schema.ItemTypeInteger)
 	add("int-1", int(-1), schema.ItemTypeInteger)
@@ -119,6 +123,16 @@ func c16Values() []c16Val {
 	add("ptr-bool", &b42, schema.ItemTypeBoolean)
 	add("ptr-slice", &[]int{1, 2}, schema.ItemTypeArray)
 	add("ptr-map", &map[string]any{"a": 1}, schema.ItemTypeObject)
+	// typed items handed over as they are (a handler answering with *schema.Value)
+	item := func(name string, t schema.ItemType, text string, want any) {
+		vs = append(vs, c16Val{Name: name, V: &schema.Value{ItemType: t, ItemValue: text}, Type: t, Want: want, HasWant: true})
+	}
+	item("item-integer", schema.ItemTypeInteger, "7", int64(7))
+	item("item-float", schema.ItemTypeFloat, "1.5", 1.5)
+	item("item-string", schema.ItemTypeString, "hello", "hello")
+	item("item-boolean", schema.ItemTypeBoolean, "true", true)
+	item("item-object", schema.ItemTypeObject, `{"a":1}`, map[string]any{"a": float64(1)})
+	item("item-array", schema.ItemTypeArray, `[1,2]`, []any{float64(1), float64(2)})
 	// nil-likes: must not panic; no type demanded
 	add("nil", nil, "")
 	add("nil-ptr-int", (*int)(nil), "")
@@ -269,6 +283,9 @@ func kindName(v any) string {
 
 func c16CheckRead(v *fw.V, route string, val c16Val, typ schema.ItemType, got any) {
 	want := c16Canon(val.V)
+	if val.HasWant {
+		want = val.Want
+	}
 	if val.Type != "" && typ != val.Type {
 		v.Violate("item-type", route+"/"+kindName(val.V), "%s: value %s (%T) stored with item type %q, expected %q", route, val.Name, val.V, typ, val.Type)
 		return
